@@ -315,6 +315,9 @@ fn cli_case(n: usize, zod: bool, seeds: u64, mapped: bool) -> (Vec<Violation>, u
     // with type mappings: several keys, two of them module-qualified spellings of one bare name
     let mappings: Vec<(String, String)> = if mapped {
         p.files[0].1.push_str("\n#[derive(Serialize, Deserialize)]\npub struct Span { pub took: Duration, pub id: Uuid, pub at: Option<Stamp> }\n#[tauri::command]\npub fn span_of(id: Uuid) -> Span { todo!() }\n");
+        // ... and two files that define a type of the same name with different fields
+        p.files.push(("src/inventory/models.rs".into(), "use serde::{Deserialize, Serialize};\n#[derive(Serialize, Deserialize)]\npub struct Twin { pub sku: String, pub shelf: u32 }\n#[tauri::command]\npub fn stock() -> Vec<Twin> { vec![] }\n".into()));
+        p.files.push(("src/orders/models.rs".into(), "use serde::{Deserialize, Serialize};\n#[derive(Serialize, Deserialize)]\npub struct Twin { pub product_id: u64, pub unit_price: f64 }\n#[tauri::command]\npub fn order_lines() -> Vec<Twin> { vec![] }\n".into()));
         vec![("chrono::Duration".into(), "number".into()), ("std::time::Duration".into(), "{ secs: number; nanos: number }".into()), ("Uuid".into(), "string".into()), ("Stamp".into(), "number".into())]
     } else {
         vec![]
